@@ -2373,8 +2373,9 @@ class Scene:
         for aircraft_name in aircraft_names:
             derivs[aircraft_name] = {}
 
-            # Get current state
+            # Get current state (the frame the angular rates were given in is part of it: it selects the axes of the damping derivatives)
             v0, w0, p0, q0 = self._airplanes[aircraft_name].get_state()
+            rate_frame0 = self._airplanes[aircraft_name].angular_rate_frame
 
             # Transform velocity to body-fixed (set_state takes the body-fixed components of the Earth-fixed velocity)
             v_body = quat_trans(q0, v0)
@@ -2409,6 +2410,7 @@ class Scene:
         
             # Reset state (the last perturbation changed the orientation, so the geometry has to be restored too)
             self._airplanes[aircraft_name].set_state(**orig_state)
+            self._airplanes[aircraft_name].angular_rate_frame = rate_frame0
             self._perform_geometry_and_atmos_calcs()
             self._solved = False
 
@@ -2769,6 +2771,7 @@ class Scene:
 
         # Store the current state
         v_orig, w_orig, p_orig, q_orig = airplane_object.get_state()
+        rate_frame_orig = airplane_object.angular_rate_frame
         phi, theta_orig, psi = quat_to_euler(q_orig)
         v_wind = self._get_wind(airplane_object.p_bar)
         controls_original = copy.copy(airplane_object.current_control_state)
@@ -2931,6 +2934,9 @@ class Scene:
             self._perform_geometry_and_atmos_calcs()
             self.set_aircraft_control_state(controls_original, aircraft=aircraft_name)
             self._solved = False
+
+        # The body rates are unchanged, and so is the frame they were given in
+        airplane_object.angular_rate_frame = rate_frame_orig
 
         # Output results to file
         filename = kwargs.get("filename", None)
